@@ -209,7 +209,9 @@ class NpModel:
 
         @np_fn("asarray")
         def _asarray(ex, args, kw):
-            return args[0] if N.is_arr(args[0]) else N.unknown(ex, "asarray")
+            if N.is_arr(args[0]) or (isinstance(args[0], VRef) and args[0].sort == "NdArray"):
+                return args[0]
+            return N.unknown(ex, "asarray")
 
         @np_fn("abs")
         def _abs(ex, args, kw):
